@@ -569,7 +569,7 @@ def sc_fuse(rng, opts):
     mode = opts.get('mode') or mode_r
     depth2 = rng.random() < 0.4 and len(groups) >= 2
     mode2 = rng.choice(['hard', 'meta'])
-    op = rng.choice(['roundtrip', 'norm', 'dense', 'dot', 'add', 'vdot', 'roundtrip_transposed', 'roundtrip_transposed'])
+    op = rng.choice(['roundtrip', 'norm', 'dense', 'dot', 'add', 'vdot', 'roundtrip_transposed', 'roundtrip_transposed', 'add_transposed', 'add_transposed'])
     flat = [x for g in groups for x in (g if isinstance(g, tuple) else (g,))]
     qperm = list(range(len(groups))); rng.shuffle(qperm)
     consume_first = rng.random() < 0.3
@@ -594,6 +594,13 @@ def sc_fuse(rng, opts):
         fa = fuse(a)
         if op == 'roundtrip':
             return unfuse(fa)
+        if op == 'add_transposed':
+            # both (hard- or meta-) fused operands carry the SAME pending transposition; their fused legs differ in sector content
+            f1 = a.fuse_legs(axes=tuple(groups), mode=mode).transpose(tuple(qperm))
+            f2 = c2.fuse_legs(axes=tuple(groups), mode=mode).transpose(tuple(qperm))
+            ax = tuple(k for k, gi in enumerate(qperm) if isinstance(groups[gi], tuple))
+            r_ = f1 + f2
+            return r_.unfuse_legs(axes=ax) if ax else r_
         if op == 'roundtrip_transposed':
             # fuse (one level), transpose the fused tensor lazily, then unfuse all fused legs at once
             f1 = a.fuse_legs(axes=tuple(groups), mode=mode)
@@ -621,6 +628,10 @@ def sc_fuse(rng, opts):
         if op == 'roundtrip_transposed':
             fl2 = [x for gi in qperm for x in (groups[gi] if isinstance(groups[gi], tuple) else (groups[gi],))]
             return dict(dense=dense(a).transpose(fl2), legs={k: lg[i] for k, i in enumerate(fl2)}, n=a.n)
+        if op == 'add_transposed':
+            fl2 = [x for gi in qperm for x in (groups[gi] if isinstance(groups[gi], tuple) else (groups[gi],))]
+            un2 = {i: yastn.legs_union(lg[i], c2.get_legs(i)) for i in range(r)}
+            return dict(dense=(dense(a, un2) + dense(c2, un2)).transpose(fl2), legs={k: un2[i] for k, i in enumerate(fl2)}, n=a.n)
         if op == 'norm':
             return dict(number=np.sum(np.abs(dense(a)) ** 2))
         if op == 'dense':
